@@ -259,6 +259,9 @@ def match_known(known, prop, key):
 
 def finish(prop, tier, seed, level, coverage, rejected, outdir, t0, assumptions, keep_events=True):
     """Classify rejections, print the verdict lines, write evidence, return exit code."""
+    specbugs = [r for r in rejected if any("SPECBUG" in w for w in r.get("why", []))]
+    if specbugs:
+        raise Infra("the specification disagrees with its cross-check oracle on %d events (specification bug, not a verdict): %s" % (len(specbugs), specbugs[:3]))
     known = load_known()
     printed_known = set()
     violations = []
